@@ -41,9 +41,10 @@ const (
 	evFEnd
 	evTRRet
 	evCancel
+	evTRUnwound // TemporarilyRelease left by a panic or runtime.Goexit raised inside f
 )
 
-var evNames = [...]string{"acquire.call", "acquire.ret", "release.call", "release.ret", "tr.call", "tr.f.start", "tr.f.end", "tr.ret", "cancel.call"}
+var evNames = [...]string{"acquire.call", "acquire.ret", "release.call", "release.ret", "tr.call", "tr.f.start", "tr.f.end", "tr.ret", "cancel.call", "tr.unwound"}
 
 // event is one tick of the logical clock.
 type event struct {
@@ -186,14 +187,52 @@ func (e *env) release(a *actor, h *holder) {
 	a.ev(e, h.id, evRelRet, 0)
 }
 
+// faults raised inside the function passed to TemporarilyRelease
+const (
+	faultNone   = iota
+	faultPanic  // f panics after body; recovered right around the TemporarilyRelease call
+	faultGoexit // f calls runtime.Goexit after body; the caller's deferred functions carry on
+)
+
+type trPanic struct{}
+
 // tr runs body inside TemporarilyRelease on h's context (owner only).
-func (e *env) tr(a *actor, h *holder, body func()) {
+func (e *env) tr(a *actor, h *holder, body func()) { e.trFault(a, h, body, faultNone) }
+
+// trFault is tr with an optional fault raised at the end of f. The temporary
+// release span ends at the tick taken once TemporarilyRelease has returned or
+// has been unwound: from then on the goroutine is outside TemporarilyRelease
+// again and counts as holding until release is called.
+func (e *env) trFault(a *actor, h *holder, body func(), fault int) {
 	d := int(atomic.AddInt32(&h.inTR, 1)) - 1
 	t0 := a.ev(e, h.id, evTRCall, d)
 	h.mu.Lock()
 	idx := len(h.trs)
 	h.trs = append(h.trs, [2]int64{t0, inf})
 	h.mu.Unlock()
+	defer func() {
+		var p interface{}
+		if fault == faultPanic {
+			p = recover()
+		}
+		if d == 0 {
+			atomic.AddInt32(&h.window, -1)
+		}
+		atomic.AddInt32(&h.inTR, -1)
+		k := evTRRet
+		if fault != faultNone {
+			k = evTRUnwound
+		}
+		t1 := a.ev(e, h.id, k, d)
+		h.mu.Lock()
+		h.trs[idx][1] = t1
+		h.mu.Unlock()
+		if p != nil {
+			if _, ok := p.(trPanic); !ok {
+				panic(p)
+			}
+		}
+	}()
 	concurrencylimiter.TemporarilyRelease(h.ctx, func() {
 		a.ev(e, h.id, evFStart, d)
 		body()
@@ -201,15 +240,13 @@ func (e *env) tr(a *actor, h *holder, body func()) {
 		if d == 0 {
 			atomic.AddInt32(&h.window, 1)
 		}
+		switch fault {
+		case faultPanic:
+			panic(trPanic{})
+		case faultGoexit:
+			runtime.Goexit()
+		}
 	})
-	if d == 0 {
-		atomic.AddInt32(&h.window, -1)
-	}
-	atomic.AddInt32(&h.inTR, -1)
-	t1 := a.ev(e, h.id, evTRRet, d)
-	h.mu.Lock()
-	h.trs[idx][1] = t1
-	h.mu.Unlock()
 }
 
 // trNoHolder runs body inside TemporarilyRelease on a context without holder.
@@ -454,7 +491,7 @@ func windowRelease(evs []event, before int64) (hid int, relCall int64) {
 		switch ev.K {
 		case evFEnd:
 			open[ev.H] = &win{f: ev.T, r: inf, g: ev.G}
-		case evTRRet:
+		case evTRRet, evTRUnwound:
 			if w := open[ev.H]; w != nil {
 				w.r = ev.T
 				wins[ev.H] = append(wins[ev.H], *w)
